@@ -75,8 +75,8 @@ theorem insufficient_mirror (b : Board) : insufficientMaterial b.mirror = insuff
   unfold insufficientMaterial
   simp only [mirror_raw, RawBoard.mirror, ← flip_or, any_flip, count_flip]
 
-/-- the static evaluation is negated -/
-theorem eval_mirror (b : Board) (h : b.WF = true) : eval b.mirror = negScore (eval b) := by
+/-- the static evaluation (of the shipped configuration, `positional = false`) is negated -/
+theorem eval_mirror (b : Board) (h : b.WF = true) : eval false b.mirror = negScore (eval false b) := by
   exact eval_mirror' b h
 
 /-- "was a capture" -/
@@ -110,7 +110,7 @@ theorem noFull_move (b : Board) (m : Move) : (b.noFull.moveUnchecked m).noFull =
   show setFull ((setFull b 0).moveUnchecked m) 0 = setFull (b.moveUnchecked m) 0
   rw [move_setFull, setFull_setFull]
 
-theorem noFull_eval (b : Board) : eval b.noFull = eval b := by
+theorem noFull_eval (pos : Bool) (b : Board) : eval pos b.noFull = eval pos b := by
   rfl
 
 theorem noFull_beq (a b : Board) : Board.beq a.noFull b = Board.beq a b ∧ Board.beq a b.noFull = Board.beq a b := by
